@@ -322,6 +322,15 @@ func run(r *hx.Run) error {
 	}
 	for _, ops := range hx.Corpus("C13") {
 		for _, op := range ops {
+			if f := strings.Fields(op); len(f) == 4 && f[0] == "key" {
+				// the unicode table is rebuilt
+				if k, ok := untokKey(f[2]); ok {
+					if mn, err := strconv.Atoi(f[3]); err == nil {
+						h.emitKey(k, mn, "corpus")
+						continue
+					}
+				}
+			}
 			res, ok := h.replay(strings.Fields(op))
 			if !ok {
 				res = "bad-op"
